@@ -18,6 +18,9 @@ structure Codec.Sound {V : Type} (c : Codec V) : Prop where
   gunz_gz : ∀ b, c.gunz (c.gz b) = .ok b
   gz_ne : ∀ b, c.gz b ≠ []
 
+/-- A string literal as a list of code points (for examples). -/
+def str (x : String) : Str := x.toList.map Char.toNat
+
 /-- The format AUTO stands for. -/
 def resolve (format : Nat) : Nat := if format = AUTO then defaultSerializationFormat else format
 
